@@ -17,6 +17,7 @@ func checkC13(c *chk.Ctx) {
 	c.Decided = []string{
 		"R13a the error result of applying a logged request can only originate from the storage layer / (de)serialisation of stored data: no repository sentinel that classifies request content, no error constructed while applying, no parse of request- or key-derived text",
 		"R13c the step of BecomeLeader that re-arms the sessions from the replayed DB (SessionManager.Initialize) cannot fail because of what a stored key or value looks like: its error only originates from the storage layer",
+		"R13d the loops that replay / apply the log (leader replay in BecomeLeader, follower apply loop) can only fail with an error of the log reader, of the generated decoder of the entry, or of ProcessWrite: no check of their own on what the logged request looks like, and no decoder stricter than the one that accepted the request",
 		"R13b both apply loops stop at the first apply error (which is why R13a is a necessary condition)",
 	}
 	c.NotDec = []string{
@@ -25,6 +26,7 @@ func checkC13(c *chk.Ctx) {
 	}
 	ruleR13a(h)
 	ruleR13c(h)
+	ruleR13d(h)
 	h.Rule("R13b", "K1", "apply loops stop at the first failing entry (shared with R07c)", 4)
 	ruleR07cInto(h, "R13b")
 }
@@ -154,5 +156,77 @@ func ruleR13c(h *H) {
 				h.Unknown(rule, name, h.P.Pos(o.Pos), why+" (enters in "+o.Via+")")
 			}
 		}
+	}
+}
+
+// ruleR13d: the apply loops themselves (between reading an entry and handing its requests
+// to ProcessWrite) must not add a failure that depends on the logged content. The write
+// path decodes requests with the generated UnmarshalVT and appends them without looking
+// inside, so whatever the loop rejects was already accepted, acknowledged and replicated.
+func ruleR13d(h *H) {
+	const rule = "R13d"
+	h.Rule(rule, "K4", "origins of the error returned by the log apply loops (functions of package server that read a wal.Reader and reach kv.DB.ProcessWrite) are the log reader, the generated entry decoder and the storage layer only", 2)
+	prov := ir.NewErrProv(h.P)
+	prov.Descend = func(f *ssa.Function) bool {
+		switch ir.RelPkg(ir.PkgPathOf(f)) {
+		case "proto", "server/kv", "server/wal":
+			return false
+		}
+		return true
+	}
+	n := 0
+	for _, fn := range h.P.Funcs {
+		if ir.RelPkg(ir.PkgPathOf(fn)) != "server" {
+			continue
+		}
+		reads := h.P.CallsIn(fn, readerReadNext)
+		if len(reads) == 0 {
+			continue
+		}
+		reaches := false
+		ir.Instrs(fn, func(in ssa.Instruction) {
+			if ci, ok := in.(ssa.CallInstruction); ok && h.P.CallStaticallyReaches(ci, h.P.MatchPred(dbProcessWrite)) {
+				reaches = true
+			}
+		})
+		if !reaches {
+			continue
+		}
+		n++
+		h.Fn(ir.FuncName(fn))
+		// the returns inside the loop body: those the read dominates (what the function
+		// does before and after the loop is not this rule's business)
+		origins := ir.SortedOrigins(prov.ReturnOriginsWhere(fn, func(ret *ssa.Return) bool {
+			for _, r := range reads {
+				if r.Block() == ret.Block() || r.Block().Dominates(ret.Block()) {
+					return true
+				}
+			}
+			return false
+		}))
+		if len(origins) == 0 {
+			h.Anchor(rule, "error origins of "+ir.FuncName(fn))
+			continue
+		}
+		for _, o := range origins {
+			name := fmt.Sprintf("error origin %s of apply loop %s", o.Key(), ir.FuncName(fn))
+			class, why := classifyOrigin(o)
+			for _, pfx := range []string{"server/kv.", "github.com/oxia-db/oxia/server/kv.", "server/wal.", "github.com/oxia-db/oxia/server/wal."} {
+				if o.Kind == "ext" && strings.HasPrefix(o.Name, pfx) {
+					class, why = "allowed", "log reader / storage layer"
+				}
+			}
+			switch class {
+			case "allowed":
+				h.OK(rule, name, h.P.Pos(o.Pos), why+" (enters in "+o.Via+")")
+			case "forbidden":
+				h.Bad(rule, name, h.P.Pos(o.Pos), "the apply loop can fail with an error that depends only on what the logged request looks like: "+why+" (enters in "+o.Via+"). The request was accepted, acknowledged and replicated; every replica that replays it stops here, forever")
+			default:
+				h.Unknown(rule, name, h.P.Pos(o.Pos), why+" (enters in "+o.Via+")")
+			}
+		}
+	}
+	if n == 0 {
+		h.Anchor(rule, "apply loops (wal.Reader.ReadNext + kv.DB.ProcessWrite) in package server")
 	}
 }
